@@ -117,6 +117,7 @@ type FuncSpec struct {
 	Line      string
 	Used      bool
 	Fresh     bool // result is a freshly allocated reference
+	Holds     []HoldDecl
 }
 
 type TypeSpec struct {
@@ -124,12 +125,26 @@ type TypeSpec struct {
 	Name     string
 	Guarded  []GuardDecl
 	Final    []string
+	FinalTags []string
+	Private  []PrivateDecl
 	Atomic   []string
 	Confined []string
 	HB       []string
 	Invs     []*Clause
 	Ctors    []string
 	Line     string
+}
+
+type HoldDecl struct {
+	Mode int // 1 read, 2 write
+	E    Expr
+	Src  string
+}
+
+type PrivateDecl struct {
+	Fields  []string
+	Writers []string
+	Tags    []string
 }
 
 type GuardDecl struct {
@@ -583,7 +598,7 @@ var clauseKeywords = map[string]bool{
 	"pred": true, "fun": true, "lemma": true, "ghost": true, "func": true, "extern": true, "type": true,
 	"callspec": true, "requires": true, "ensures": true, "modifies": true, "pure": true, "function": true, "inline": true,
 	"trusted": true, "loop": true, "before": true, "sweep": true, "guarded": true, "final": true, "atomic": true,
-	"confined": true, "hb-by-channel": true, "invariant": true, "ctor": true, "params": true, "fresh": true, "end": true,
+	"confined": true, "private": true, "holds": true, "hb-by-channel": true, "invariant": true, "ctor": true, "params": true, "fresh": true, "end": true,
 }
 
 type rawClause struct {
@@ -848,6 +863,26 @@ func parseSpecFile(path string, pkgPath string) (*SpecFile, error) {
 			if f := target(); f != nil {
 				f.Fresh = true
 			}
+		case "holds":
+			f := target()
+			if f == nil {
+				return fail(fmt.Errorf("holds outside func"))
+			}
+			mode, r2 := splitFirst(rest)
+			md := 0
+			switch mode {
+			case "read":
+				md = 1
+			case "write":
+				md = 2
+			default:
+				return fail(fmt.Errorf("holds read|write <lock>"))
+			}
+			e, err := parseExprString(r2)
+			if err != nil {
+				return fail(err)
+			}
+			f.Holds = append(f.Holds, HoldDecl{Mode: md, E: e, Src: r2})
 		case "inline":
 			if curF != nil {
 				curF.Inline = true
@@ -925,7 +960,7 @@ func parseSpecFile(path string, pkgPath string) (*SpecFile, error) {
 				return nil, err
 			}
 			curF.Before = append(curF.Before, &CallAssert{callee, ord, c})
-		case "guarded", "final", "atomic", "confined", "hb-by-channel", "ctor", "invariant":
+		case "guarded", "final", "atomic", "confined", "hb-by-channel", "ctor", "invariant", "private":
 			if curT == nil {
 				return fail(fmt.Errorf("%s outside type", kw))
 			}
@@ -938,7 +973,16 @@ func parseSpecFile(path string, pkgPath string) (*SpecFile, error) {
 				}
 				curT.Guarded = append(curT.Guarded, GuardDecl{Fields: splitNames(body[:k]), Lock: strings.TrimSpace(body[k+4:]), Tags: tags})
 			case "final":
-				curT.Final = append(curT.Final, splitNames(rest)...)
+				tags, _, body := parseTags(rest)
+				curT.FinalTags = append(curT.FinalTags, tags...)
+				curT.Final = append(curT.Final, splitNames(body)...)
+			case "private":
+				tags, _, body := parseTags(rest)
+				k := strings.LastIndex(body, " writers ")
+				if k < 0 {
+					return fail(fmt.Errorf("private ... writers M1, M2"))
+				}
+				curT.Private = append(curT.Private, PrivateDecl{Fields: splitNames(body[:k]), Writers: splitNames(body[k+9:]), Tags: tags})
 			case "atomic":
 				curT.Atomic = append(curT.Atomic, splitNames(rest)...)
 			case "confined":
